@@ -5,6 +5,7 @@ import (
 	"fmt"
 	"io"
 	"math/big"
+	"os"
 	"os/exec"
 	"strings"
 	"time"
@@ -134,7 +135,9 @@ func (s *Solver) Reset() {
 	s.preamble()
 }
 
-func symName(n string) string { return "|" + strings.ReplaceAll(strings.ReplaceAll(n, "|", "_"), "\\", "_") + "|" }
+func symName(n string) string {
+	return "|" + strings.ReplaceAll(strings.ReplaceAll(n, "|", "_"), "\\", "_") + "|"
+}
 
 // define emits declarations/definitions for every sub-term of t not yet known.
 func (s *Solver) define(t *Term) {
@@ -250,6 +253,9 @@ func (s *Solver) Check(extra *Term, wantModel bool) (Res, map[string]*big.Int) {
 	wd := time.AfterFunc(time.Duration(s.timeoutMs)*time.Millisecond*3/2+3*time.Second, func() { proc.Kill() })
 	lines, err := s.readUntilDone()
 	wd.Stop()
+	if d := os.Getenv("GOSE_SLOWLOG"); d != "" && time.Since(t0) > 2*time.Second {
+		os.WriteFile(fmt.Sprintf("%s/slow-%d.smt2", d, time.Now().UnixNano()), []byte(s.Script(extra)), 0o644)
+	}
 	if err != nil {
 		s.Errors++
 		s.restart()
